@@ -4,6 +4,7 @@ Model/Ops.lean — JSON decoding and dispatch for the line-protocol driver.
 import Lean.Data.Json
 import Dtaiverif.Model.Settings
 import Dtaiverif.Model.Bounds
+import Dtaiverif.Model.Compact
 
 open Lean
 
@@ -88,10 +89,44 @@ def opDtw (j : Json) : Except String Json := do
       ("neg", Json.arr (w.neg.map fun p => Json.arr #[Json.num p.1, Json.num p.2]).toArray)]
   return Json.mkObj out
 
+def costOfJ (j : Json) : Cost :=
+  match j.getNat? with
+  | .ok n => .fin n
+  | .error _ => .inf
+
+/-- op "parts": `dtw_wps_parts` and `dtw_wps_loc_columns` for every row -/
+def opParts (j : Json) : Except String Json := do
+  let l1 ← getNat j "l1"
+  let l2 ← getNat j "l2"
+  let w := getNatD j "window" 0
+  let p := wpsParts l1 l2 w
+  let rows := (List.range l1).map fun k =>
+    let lc := locColumns p l2 (k+1)
+    Json.arr #[Json.num lc.1, Json.num lc.2.1, Json.num lc.2.2]
+  return Json.mkObj [("ldiff", Json.num p.ldiff), ("ldiffr", Json.num p.ldiffr), ("ldiffc", Json.num p.ldiffc),
+    ("window", Json.num p.window), ("width", Json.num p.width), ("length", Json.num p.length),
+    ("ri1", Json.num p.ri1), ("ri2", Json.num p.ri2), ("ri3", Json.num p.ri3),
+    ("ol", Json.num p.ol), ("or", Json.num p.or), ("rows", Json.arr rows.toArray)]
+
+/-- op "expand": `dtw_expand_wps_slice` of a compact buffer given as list of numbers / "inf" -/
+def opExpand (j : Json) : Except String Json := do
+  let l1 ← getNat j "l1"
+  let l2 ← getNat j "l2"
+  let w := getNatD j "window" 0
+  let p := wpsParts l1 l2 w
+  let buf ← (j.getObjVal? "wps") >>= (·.getArr?)
+  let wps : Array Cost := buf.map costOfJ
+  let sl ← getNatArr j "slice"
+  let m := expandSlice p l1 l2 (getNatD j "psi1b" 0) (getNatD j "psi2b" 0) wps
+    (sl.getD 0 0) (sl.getD 1 0) (sl.getD 2 0) (sl.getD 3 0)
+  return Json.mkObj [("mat", rowsJ m)]
+
 def dispatch (j : Json) : Except String Json := do
   let op ← (j.getObjVal? "op") >>= (·.getStr?)
   let res ← match op with
     | "dtw" => opDtw j
+    | "parts" => opParts j
+    | "expand" => opExpand j
     | "ping" => pure (Json.mkObj [("pong", Json.bool true)])
     | _ => throw s!"unknown op {op}"
   match j.getObjVal? "id" with
